@@ -35,13 +35,43 @@ def make_solver(name, system, t1, dt, opts=None, **kw):
     return getattr(S, name)(system, t1, dt, options=opts, **kw)
 
 
+class WorkBudgetExceeded(Exception):
+    """An adaptive third-party integrator (scipy / scipy_dae) kept shrinking its step: the run is abandoned after a
+    fixed number of right-hand-side evaluations (a count, not a time limit) and the case is inconclusive."""
+
+
+# typical runs of the checks need 1e2 ... 1e4 evaluations (measured maxima: 1.3e3 ScipyIVP, 9.3e3 ScipyDAE)
+WORK_BUDGET = {"ScipyIVP": 200000, "ScipyDAE": 60000}
+MAX_WORK_SEEN = {"ScipyIVP": 0, "ScipyDAE": 0}
+
+
+def _budgeted(name, solver):
+    attr = "eqm" if name == "ScipyIVP" else "fun"
+    inner = getattr(solver, attr)
+    count = [0]
+
+    def counted(*a, **k):
+        count[0] += 1
+        if count[0] > WORK_BUDGET[name]:
+            raise WorkBudgetExceeded(f"{name}: more than {WORK_BUDGET[name]} evaluations of the right-hand side")
+        return inner(*a, **k)
+
+    setattr(solver, attr, counted)
+    return count
+
+
 def run(name, system, t1, dt, opts=None, record_warnings=False, **kw):
     """Returns (solution, warnings list)."""
     with warnings.catch_warnings(record=True) as rec:
         warnings.simplefilter("always")
         with quiet():
             solver = make_solver(name, system, t1, dt, opts, **kw)
-            sol = solver.solve()
+            count = _budgeted(name, solver) if name in WORK_BUDGET else None
+            try:
+                sol = solver.solve()
+            finally:
+                if count is not None:
+                    MAX_WORK_SEEN[name] = max(MAX_WORK_SEEN[name], count[0])
     return sol, [str(w.message) for w in rec]
 
 
